@@ -641,6 +641,10 @@ func (e *enc) evalCall(n *SCall, env *Env) SVal {
 		}
 		d, _ := e.mapCells(env.st, mt)
 		return SVal{t: fmt.Sprintf("(and (not (= %s null)) (select (select %s %s) %s))", m.t, e.get(env.st, d, e.mapCellSort(d)), m.t, k.t), sort: "Bool"}
+	case "dec":
+		// decimal rendering of an integer (fmt.Sprint of an integer operand)
+		e.declareFun("dec", "(Int) Str")
+		return SVal{t: fmt.Sprintf("(dec %s)", arg(0).t), sort: "Str", typ: types.Typ[types.String]}
 	case "strlt":
 		return SVal{t: fmt.Sprintf("(strlt %s %s)", arg(0).t, arg(1).t), sort: "Bool"}
 	case "hasPrefix":
